@@ -235,6 +235,9 @@ static void gen_table(Rng& r, Gen& g, int nd, int cls) {
   double per = std::pow((double)target, 1.0 / nd);
   for (int i = 0; i < nd; i++) { int want = (int)std::floor(per * (0.7 + 0.6 * r.unit())); extra[i] = std::max(0, want - (int)g.ord[i] - 1); }
   if (cls == 4 && r.coin()) { extra[0] += 1200; for (int i = 1; i < nd; i++) extra[i] = extra[i] / 2; } // a knot vector large enough for a direct write
+  // keep the file below about 450 blocks (4 bytes per coefficient + 8 per knot)
+  auto est = [&]() { double nc = 1, nk = 0; for (int i = 0; i < nd; i++) { nc *= g.ord[i] + 1 + extra[i]; nk += 2 * g.ord[i] + 2 + extra[i]; } return 4 * nc + 8 * nk; };
+  while (est() > 1.3e6) { int big = 0; for (int i = 1; i < nd; i++) if (extra[i] > extra[big]) big = i; if (nd > 1 && big == 0 && extra[0] >= 1200) { big = 1; for (int i = 2; i < nd; i++) if (extra[i] > extra[big]) big = i; if (extra[big] == 0) big = 0; } extra[big] = extra[big] * 9 / 10; }
   g.kn.clear();
   for (int i = 0; i < nd; i++) g.kn.push_back(gen_knots(r, g.ord[i], extra[i], r.range(0, 3)));
   uint64_t nc = ncoef(g.ord, g.kn);
